@@ -280,6 +280,25 @@ def run(p: Program, rep: Report, tier: str) -> None:
                         rep.violation("R7.5", construct(call, text=f"redirect {show(url)[:80] if url else ''}"), where(call, node), f"{side} Pages: the redirect target is not the request URL with '/' appended to its path")
     rep.require_instances("R7.5", 8)
 
+    # ---------------------------------------------------------------- R7.6 what is served is read from the resolved file, per request
+    # no function on the serving path keeps file content (or anything else) in a container that outlives the request:
+    # a body memo keyed by size/mtime/ETag serves the content of ANOTHER file whose key collides
+    from ..common import process_wide_mutations
+    serving = [f for f in p.all_functions() if f.module.name in ("baize.staticfiles", "baize.wsgi.staticfiles", "baize.asgi.staticfiles", "baize.responses", "baize.wsgi.responses", "baize.asgi.responses")]
+    muts = process_wide_mutations(p, serving)
+    for fn_, node_, what in muts:
+        rep.violation("R7.6", construct(fn_, text="process-wide state: " + what.split("(")[0]), where(fn_, node_),
+                      f"{fn_.fq}: {what} - the static-file serving path writes a container that outlives the request; content served later can come from that container instead of the resolved file")
+    if not muts:
+        rep.ok("R7.6", f"no function of the static-file / response modules ({len(serving)} scanned) mutates a module-level or class-level container")
+    from ..common import controls_fire
+    dead = controls_fire()
+    if dead:
+        rep.undecide("R7.6", f"positive control: detector(s) {dead} no longer fire on sa/fixtures/controls")
+    else:
+        rep.ok("R7.6", "positive control: the detectors fire on the committed fixture")
+    rep.require_instances("R7.6", 1)
+
 
 def _classify(pa: Path, returned: Value, DIR: Value) -> str:
     """Which confinement idiom do the facts of an accepting path show?"""
